@@ -88,6 +88,9 @@ type Prop struct {
 
 var Registry = map[string]*Prop{}
 
+// BaseSeed is VERIF_SEED, for generators that derive several runs from one sampled history.
+var BaseSeed uint64
+
 func register(p *Prop) { Registry[p.ID] = p }
 
 // Execute runs one scenario in a fresh bubble and returns its outcome.
